@@ -114,6 +114,8 @@ def r1_total_dispatch(w):
                             continue
                         if not tnames and tb and any(tb[0].locals[j]['ty']['s'].startswith('&typst_syntax::SyntaxNode') for j in range(1, tb[0].arg_count + 1)):
                             continue     # untyped converter: receives the node itself
+                        if en in tnames:
+                            continue     # the whole enum value is handed on to a function of the same enum (a guard in front of the dispatcher, judged itself)
                         bad = 'routes to %s whose node parameter is %s, not %s' % (last(x[1]), tnames, want)
                         break
                     elif x[0] == 'text':
